@@ -9,7 +9,7 @@ are added.  TraceSession.tla judges requests (follow-up = last accepted OID; non
 strictly increasing, exact values, in reply order) and termination; a walk that does not stop is reported."""
 import json, asyncio, random
 from vlib import env, tlc, trace, graph, scripts, apidrv, walks, agent as ag, sesscheck
-from vlib.report import Check
+from vlib.report import Check, confirm_by_replay
 from vlib.env import ToolError, SEED
 from checks import c05
 
@@ -68,7 +68,7 @@ async def run_async(rec, cfg, items, uni=0):
         a = rec.n
         agent = ag.Agent(engine=cfg.engine or None) if cfg.engine else ag.Agent()
         state = {"resp": lambda req: []}
-        api = await apidrv.AsyncApi.create(rec, cfg, lambda req: state["resp"](req), timeout=0.3)
+        api = await apidrv.AsyncApi.create(rec, cfg, lambda req: state["resp"](req), timeout=1.0)
         state["resp"] = walks.scripted_responder(agent, api.cfgref, script, UNIVERSES[(k + uni) % 2])
         await walks.walk_async(api, op, BASE_TEXT, 3 if op == "getbulk" else None, limit=40)
         api.close()
@@ -82,7 +82,7 @@ def run_sync(rec, cfg, items, uni=0):
         a = rec.n
         agent = ag.Agent(engine=cfg.engine or None) if cfg.engine else ag.Agent()
         state = {"resp": lambda req: []}
-        api = apidrv.SyncApi(rec, cfg, lambda req: state["resp"](req), timeout=0.3)
+        api = apidrv.SyncApi(rec, cfg, lambda req: state["resp"](req), timeout=1.0)
         state["resp"] = walks.scripted_responder(agent, api.cfgref, script, UNIVERSES[(k + uni) % 2])
         walks.walk_sync(api, op, BASE_TEXT, 3 if op == "getbulk" else None, limit=40)
         api.close()
@@ -154,7 +154,7 @@ def run(tier):
         ev = rec.events[idxf]
         sig = dict(op=info["op"], ev=ev["ev"], got=ev.get("exc") or "ok", shape=shape(info["script"]))
         chk.violation(sig, "%s %s %s walk, agent script %s: %s %s" % (info["kind"], info["ver"], info["op"], json.dumps(info["script"])[:160], ev["ev"], ev.get("exc") or json.dumps(ev.get("res"))[:80]),
-                      dict(info=info))
+                      dict(info=info), confirm=confirm_by_replay(replay, dict(info=info)))
     chk.sample(dict(kind="script", op=items[40][0], replies=items[40][1]))
     return chk.finish()
 
